@@ -255,6 +255,82 @@ Definition move_hyp (F G : fset) (sl : sel) (d : disk) : bool :=
 Definition op_hyp_g (o : op) (d : disk) : bool :=
   match o with OMove F G _ _ sl => move_hyp F G sl d | _ => true end.
 
+(* ------------------------------------------------------------------ the period a written file is found under
+   F[s:e, fill] = x, then find(): what the property promises for each way of spelling the end (C02):
+     no end fields        -> (s, s + time_coverage) resp. (s, s)
+     a complete end       -> (s, e)
+     only sub-day fields  -> (s, e's spelt fields completed by those of s, moved on by the unit above the coarsest
+                             spelt end field when that would precede s); = (s, e) in the exact class
+   None = get_info raises OverflowError (the period would end after 9999-12-31). *)
+Definition start_okb (tp : list tok) (s : Z) : bool :=
+  validb s && has_date (start_fields tp) && in_range (start_fields tp) (fields s)
+  && at_resolution (start_fields tp) (fields s) && no_parse_only (start_fields tp).
+Definition wif_period (F : fset) (s e : Z) : option Z :=
+  let tp := tpl F in
+  match end_fields tp with
+  | [] => match cov F with Some c => add s c | None => Some s end
+  | _ => if end_full tp then Some e
+         else match complete tp (fields s) (fields e) with
+              | Some r => let e' := roll (unit_above tp) s r in if validb e' then Some e' else None
+              | None => None
+              end
+  end.
+(* the hypotheses of C02's no_end_fields / roundtrip_end_full / roundtrip_end_partial as one boolean *)
+Definition wif_hyp (F : fset) (s e : Z) (fill : attrs) : bool :=
+  let tp := tpl F in let ef := end_fields tp in
+  start_okb tp s && validb e && (s <=? e) && deterministic (fill_of fill) tp &&
+  (match ef with [] => true | _ => false end
+   || (end_full tp && in_range ef (fields e) && at_resolution ef (fields e) && no_parse_only ef)
+   || end_partial tp).
+(* the exact class of the sub-day end kind (hypotheses of C02's end_partial_exact): there the period is (s, e) *)
+Definition wif_exact (F : fset) (s e : Z) : bool :=
+  end_partial (tpl F) && end_exact (tpl F) (fields e) && (0 <=? e - s) && (e - s <? unit_above (tpl F)).
+
+(* ------------------------------------------------------------------ arguments of a single call
+   read(file, **read_args), collect(..., read_args={..}), write(data, file, **write_args):
+         read_args = {**self.read_args, **read_args}          (fileset.py, read and write)
+   A NEW dictionary is built for the call: the call's own entries override the defaults key by key, and the
+   FileSet object keeps its defaults.  Keyword dictionaries are association lists (first binding wins), so
+   {**a, **b} is b ++ a.  `kcode` is the handler's reading of a dictionary (the code enc / dec are indexed by). *)
+Definition kwargs := list (str * Z).
+Fixpoint klook (k : str) (a : kwargs) : option Z :=
+  match a with [] => None | (k', v) :: a' => if str_eqb k k' then Some v else klook k a' end.
+Definition kmerge (dflt call : kwargs) : kwargs := call ++ dflt.
+Variable kcode : kwargs -> Z.
+
+(* a FileSet OBJECT: what __init__ stored; read_args and write_args are its default dictionaries *)
+Record fobj := FObj { o_tpl : list tok; o_cov : option Z; o_hid : Z; o_rd : kwargs; o_wd : kwargs;
+                      o_post : Data -> Data; o_zc : bool; o_zd : bool }.
+(* the fileset as ONE call with the read arguments cr and the write arguments cw sees it *)
+Definition view (O : fobj) (cr cw : kwargs) : fset :=
+  FSet (o_tpl O) (o_cov O) (o_hid O) (kcode (kmerge (o_rd O) cr)) (kcode (kmerge (o_wd O) cw))
+       (o_post O) (o_zc O) (o_zd O).
+
+Inductive ocall :=
+| CRead (a : kwargs) (p : str)                  (* O.read(p, **a) *)
+| CCollect (a : kwargs) (sl : sel)              (* O.collect(..., read_args=a) *)
+| CWrite (a : kwargs) (x : Data) (p : str)      (* O.write(x, p, **a) *)
+| CPlain (f : fset -> op).                      (* any operation of `op` on O with its defaults: O[s:e] = x, O.move(..), ... *)
+
+(* one call: the object as it is afterwards, and the outcome *)
+Definition call_step (O : fobj) (c : ocall) (d : disk) : fobj * res (disk * obs) :=
+  (O, match c with
+      | CRead a p => step (ORead (view O a []) p) d
+      | CCollect a sl => step (OCollect (view O a []) sl) d
+      | CWrite a x p => step (OWriteAt (view O [] a) p x) d
+      | CPlain f => step (f (view O [] [])) d
+      end).
+(* a history of calls on one object (stops at the first exception, like `run`) *)
+Fixpoint calls (O : fobj) (cs : list ocall) (d : disk) : fobj * res (disk * list obs) :=
+  match cs with
+  | [] => (O, Good (d, []))
+  | c :: cs' => match call_step O c d with
+                | (O1, Good (d1, ob)) => let (O2, r) := calls O1 cs' d1 in
+                                         (O2, rbind r (fun x => Good (fst x, ob :: snd x)))
+                | (O1, Bad e) => (O1, Bad e)
+                end
+  end.
+
 End Ops.
 
 Arguments FSet {Data}. Arguments tpl {Data}. Arguments cov {Data}. Arguments hid {Data}.
@@ -265,6 +341,10 @@ Arguments OCollect {Data}. Arguments OFind {Data}. Arguments OMove {Data}. Argum
 Arguments VNone {Data}. Arguments VData {Data}. Arguments VList {Data}. Arguments VFiles {Data}.
 Arguments VUnspecified {Data}.
 Arguments finfo {Data}. Arguments target {Data}. Arguments targets_of {Data}.
+Arguments wif_period {Data}. Arguments wif_hyp {Data}. Arguments wif_exact {Data}.
+Arguments FObj {Data}. Arguments o_tpl {Data}. Arguments o_cov {Data}. Arguments o_hid {Data}. Arguments o_rd {Data}.
+Arguments o_wd {Data}. Arguments o_post {Data}. Arguments o_zc {Data}. Arguments o_zd {Data}.
+Arguments CRead {Data}. Arguments CCollect {Data}. Arguments CWrite {Data}. Arguments CPlain {Data}.
 
 (* ------------------------------------------------------------------ the toy instance run by the harness
    Data  = Z (the number a test object carries);
@@ -309,3 +389,22 @@ Definition run_step (o : op Z) (d : list (string * list Z)) : tres :=
 Definition attrs_in (a : list (string * string)) : attrs := map (fun kv => (s2l (fst kv), s2l (snd kv))) a.
 Definition filt_in (a : list (string * list string)) : list (str * list str) :=
   map (fun kv => (s2l (fst kv), map s2l (snd kv))) a.
+
+(* per-call arguments on the toy instance: the handlers of the harness take one keyword, `offset` (default 0) *)
+Definition t_kcode (a : kwargs) : Z := match klook (s2l "offset") a with Some v => v | None => 0 end.
+Definition t_fobj := @fobj Z.
+Definition t_call_step := call_step Z (list Z) t_enc t_dec t_pack t_unpack t_kcode.
+Definition t_calls := calls Z (list Z) t_enc t_dec t_pack t_unpack t_kcode.
+Definition kw_in (a : list (string * Z)) : kwargs := map (fun kv => (s2l (fst kv), snd kv)) a.
+Definition kw_out (a : kwargs) : list (string * Z) := map (fun kv => (l2s (fst kv), snd kv)) a.
+(* one call on an object: the outcome and the object's default dictionaries afterwards *)
+Definition run_call (O : t_fobj) (c : ocall Z) (d : list (string * list Z))
+  : tres * list (string * Z) * list (string * Z) :=
+  let (O', r) := t_call_step O c (in_disk d) in
+  (match r with Good (d', ob) => TGood (out_disk d') (out_obs ob) | Bad e => TBad e end,
+   kw_out (o_rd O'), kw_out (o_wd O')).
+(* what the property promises for F[s:e, fill] = x: (hypotheses hold, exact class, end of the period found,
+   the name written -- "" when get_filename raises) *)
+Definition run_wif (F : t_fset) (s e : Z) (fill : attrs) : bool * bool * option Z * string :=
+  (wif_hyp F s e fill, wif_exact F s e, wif_period F s e,
+   match render (tpl F) s e (fill_of fill) with Ok p => l2s p | Error _ => EmptyString end).
